@@ -681,8 +681,14 @@ func c04r7(c *Check) {
 				ex, ok := l.v.(*ssa.Extract)
 				if ok && ex.Index == 0 {
 					if hc, ok := ex.Tuple.(*ssa.Call); ok {
-						if h := hc.Call.StaticCallee(); h != nil && h.Blocks != nil && fnPkg(h) == fnPkg(fn) && len(h.Params) == 1 && len(hc.Call.Args) == 1 && hc.Call.Args[0] == base {
-							base = h.Params[0]
+						argIdx := -1
+						for ai, a := range hc.Call.Args {
+							if a == base {
+								argIdx = ai
+							}
+						}
+						if h := hc.Call.StaticCallee(); h != nil && h.Blocks != nil && fnPkg(h) == fnPkg(fn) && argIdx >= 0 && argIdx < len(h.Params) {
+							base = h.Params[argIdx]
 							allInstrs(h, func(in ssa.Instruction) {
 								if ret, ok := in.(*ssa.Return); ok && len(ret.Results) == 2 {
 									var sub []leaf
